@@ -18,6 +18,7 @@ type wsMsg struct {
 	typ       int
 	data      *Blob
 	truncated bool // the frame is cut off: Read delivers nothing and fails
+	partial   bool // only the beginning arrived: Read blocks until the connection goes away, then fails
 }
 
 type WSEnd struct {
@@ -336,6 +337,16 @@ func init() {
 	})
 	reg("(*"+wsPkg+".messageReader).Read", func(g *G, fr *Frame, fn *ssa.Function, a []Value) Value {
 		rd := (*a[0].(*Value)).(*wsReader)
+		if rd.msg.partial {
+			e := rd.end
+			g.schedPoint(&Op{desc: "ws.read inside a partial message " + e.String(), obj: e, enabled: func() bool { return e.down || e.closed }})
+			if e.closed {
+				e.readErr = g.wsErr("use of closed network connection")
+			} else {
+				e.readErr = g.wsErr("unexpected EOF")
+			}
+			return Tuple{Int{}, e.readErr}
+		}
 		if rd.msg.truncated {
 			rd.end.readErr = g.wsErr("unexpected EOF")
 			return Tuple{Int{}, load(g.run.global(g.run.P.Pkgs["io"].Var("ErrUnexpectedEOF")))}
@@ -741,6 +752,13 @@ func init() {
 		e.closed = true
 		e.dropTransport()
 		g.run.obs = append(g.run.obs, e.String()+" truncated frame then reset")
+		return nil
+	})
+	PC("SendPartial", func(g *G, e *WSEnd, a []Value) Value {
+		g.schedPoint(&Op{desc: "peer partial message " + e.String(), obj: e, enabled: func() bool { return true }})
+		if !e.down {
+			e.deliver(wsMsg{typ: websocket.TextMessage, partial: true})
+		}
 		return nil
 	})
 	PC("Sent", func(g *G, e *WSEnd, a []Value) Value { return I64(int64(e.peer.sent)) })
